@@ -56,5 +56,9 @@ Theorem gen_dispatch_lengths :
   G.dispatch_lengths = [(20, str "p2wpkh_script_pubkey"); (32, str "p2wsh_script_pubkey")].
 Proof. vm_compute. reflexivity. Qed.
 
+(* the Base58Check payload (version byte excluded) must be exactly 20 bytes, else ValueError *)
+Theorem gen_dispatch_payload_length : G.dispatch_payload_length = (20, str "ValueError").
+Proof. vm_compute. reflexivity. Qed.
+
 Theorem gen_dispatch_order : G.dispatch_order = [str "is_point"; str "is_base58check"; str "is_segwit_addr"].
 Proof. vm_compute. reflexivity. Qed.
